@@ -45,6 +45,9 @@ def run(mu, keep=False):
         shutil.rmtree(scr, ignore_errors=True)
 
 if __name__ == "__main__":
+    if not os.path.isdir(os.path.join(VERIF, ".deps", "atheris")):
+        # the coverage-guided sub-checks skip themselves without atheris (a fresh snapshot has no .deps): install as the checks' setup does
+        subprocess.run(["bash", os.path.join(VERIF, "setup.sh")], cwd=VERIF, check=False, capture_output=True)
     want = sys.argv[1:]
     rows = []
     for mu in M:
